@@ -2,6 +2,11 @@
 EXTENDS Densify, TraceIO
 RECURSIVE ModelPaths(_, _)
 ModelPaths(ins, r) == IF ins = <<>> THEN <<>> ELSE <<DensifyModel(Head(ins), r)>> \o ModelPaths(Tail(ins), r)
+\* number of vertices the model puts on a path: the original ones plus ceil(L / r) - 1 on every edge of length L > r
+\* (edge lengths in world units are logged: their squares over S do not fit TLC's integers)
+RECURSIVE LongCount(_, _)
+LongCount(lens, r) == IF lens = <<>> THEN 1
+                      ELSE LET L == Head(lens) IN 1 + (IF L > r THEN (L + r - 1) \div r - 1 ELSE 0) + LongCount(Tail(lens), r)
 Verdict(e) ==
   IF e.c.op = "to_crs_no_crs" THEN (IF e.outcome = "ValueError" THEN "ok" ELSE "reject:geometry_without_crs_not_refused")
   ELSE IF e.outcome # "ok" THEN "reject:raised_" \o e.outcome
@@ -9,6 +14,14 @@ Verdict(e) ==
   ELSE IF e.c.op = "segmented" THEN (LET v == SegmentedOK(e) IN IF v # "ok" THEN "reject:" \o v
                                      ELSE IF ~e.type_area_length_ok THEN "reject:type_area_or_length_changed"
                                      ELSE IF e.out # ModelPaths(e.inp, e.r) THEN "drift:differs_from_densification_model" ELSE "ok")
+  ELSE IF e.c.op = "segmented_long" THEN
+       (IF e.sig_out # e.sig_in THEN "reject:geometry_type_or_part_structure_changed"
+        ELSE IF Len(e.long) # Len(e.inp) THEN "reject:number_of_rings_or_parts_changed"
+        ELSE IF \E k \in DOMAIN e.long : ~e.long[k].on_path_in_order THEN "reject:added_vertex_not_on_its_original_edge_in_order"
+        ELSE IF \E k \in DOMAIN e.long : e.long[k].maxgap2 > e.r * e.r * S * S THEN "reject:edge_longer_than_resolution"
+        ELSE IF ~e.type_area_length_ok THEN "reject:type_area_or_length_changed"
+        ELSE IF \E k \in DOMAIN e.long : e.long[k].n # LongCount(e.long[k].lens, e.r) THEN "drift:differs_from_densification_model"
+        ELSE "ok")
   ELSE IF e.c.op = "to_crs_family" THEN (LET v == ToCrsOK(e) IN IF v # "ok" THEN "reject:" \o v ELSE IF ~e.crs_ok THEN "reject:result_not_in_the_target_crs" ELSE "ok")
   ELSE \* real EPSG pairs: structure decided here, vertex images against the logged pyproj oracle
        IF e.sig_out # e.sig_in THEN "reject:geometry_type_or_part_structure_changed"
